@@ -37,6 +37,14 @@ def mutants(r, s, k):
             out.append(s[:i] + s[i + 1] + s[i] + s[i + 2:])
         else:
             out.append(s[:i] + r.choice("#$%&!~@^*_+<>/\\|;:.xyzQWZ") + s[i:])
+    # digits: a digit put before / after / in place of a written number (leading zeros, two-digit positions, bare 0)
+    import re as _re
+    nums = [m.start() for m in _re.finditer(r"\d", s)]
+    for _ in range(max(1, k // 2)):
+        if nums:
+            i = r.choice(nums)
+            d = r.choice("0012345678990")
+            out.append(r.choice([s[:i] + d + s[i:], s[:i + 1] + d + s[i + 1:], s[:i] + d + s[i + 1:]]))
     return out
 
 
@@ -93,7 +101,8 @@ def make_inputs(r, tier):
             items.append(("deep-mutant", m))
     for s in corpus(1200 if tier == "quick" else 20000, r):
         items.append(("corpus", s))
-    for s in ["NHex", "OPen", "Man(a1-4)NHex", "HexNHex", "PHep", "Glc#Man", "Glc##", "Glc# Man", "Glc#", "#", "", "##", " ", "Glc ", "Glc  a", "{Man(a1-4)}Glc", "{Man(a1-4)}{Gal(b1-3)}Glc"]:
+    for s in ["Man(a1-04)Glc", "Man(a01-4)Glc", "Gal06S", "Man(a1-0)Glc", "Glc0", "0Glc", "Glc00d", "Gal6S0", "Glc10S", "Man(a10-4)Glc", "Neu5Ac(a2-03)Gal", "0dGlc", "00dGlc", "Glc0d",
+              "NHex", "OPen", "Man(a1-4)NHex", "HexNHex", "PHep", "Glc#Man", "Glc##", "Glc# Man", "Glc#", "#", "", "##", " ", "Glc ", "Glc  a", "{Man(a1-4)}Glc", "{Man(a1-4)}{Gal(b1-3)}Glc"]:
         items.append(("special", s))
     seen, out = set(), []
     for k, s in items:
